@@ -67,7 +67,8 @@ def frame_component(pid, tier):
             comps = [c for c, m in (("channels", 1), ("node", 2), ("store", 4), ("tracker", 8)) if b["mask"] & m]
             d = ex["details"].get((b["node"], b["ri"]), {})
             fields = sorted(set(".".join(x.split(".")[:2]) for x in d.get("changed", [])))
-            key = "node:%s:%s:%s" % (b["req"]["op"], "+".join(comps), ",".join(fields))
+            opname = b["req"]["op"] + ("[%s]" % b["req"]["inp"] if "inp" in b["req"] else "")
+            key = "node:%s:%s:%s" % (opname, "+".join(comps), ",".join(fields))
             viol.append({"key": key, "what": "refused %s changed %s" % (b["req"]["op"], ",".join(fields) or "+".join(comps)),
                          "replay": {"kind": "node-path", "path": d.get("path"), "req": b["req"], "err": d.get("resp", {}).get("err")}})
         cov = {"node_requests": {"impl_states": rep["nodes"], "refused_edges_checked": refused,
